@@ -246,9 +246,12 @@ fn build_segment(rng: &mut Rng, cfg: &FieldCfg, ndocs: usize, shape: u64, vocab:
                     let nw = match shape { 0 => rng.range(1, 4), 1 => rng.below(7), 2 => rng.range(0, 3), _ => rng.range(100, 300) };
                     let mut ws: Vec<String> = (0..nw).map(|_| word(rng, vocab)).collect();
                     // posting-length targets: "k<k>" occurs in the first k documents
-                    for k in [1usize, 127, 128, 129, 255, 256, 257, 1000, 4000] { if d < k && ndocs >= k && shape != 1 { ws.push(format!("k{k}")); } }
+                    for k in [1usize, 127, 128, 129, 255, 256, 257, 1000, 4000, 10_000, 65_536] { if d < k && ndocs >= k && shape != 1 { ws.push(format!("k{k}")); } }
                     if shape == 3 && d % 3 == 0 { for _ in 0..rng.range(120, 140) { ws.push("rep".into()); } }
                     let sep = if cfg.tokenizer == "raw" { "_" } else if rng.chance(1, 4) { "  " } else { " " };
+                    // long terms sharing long prefixes (several kB in large segments; around MAX_TOKEN_LEN: kept at 65530, dropped above)
+                    if shape == 1 && rng.chance(1, 8) { ws.insert(0, format!("{}{}", "p".repeat([0usize, 1, 60, 120, 200][rng.below(5) as usize]), rng.below(3))); }
+                    if shape != 1 && rng.chance(1, 50) { let n = [0usize, 255, 256, 1000, 5000, 65529, 65530, 65531, 70000][rng.below(9) as usize]; ws.insert(0, format!("{}{}", "p".repeat(n.saturating_sub(1)), if n == 0 { String::new() } else { format!("{}", rng.below(2)) })); }
                     let text = if cfg.tokenizer == "raw" { ws.get(0).cloned().unwrap_or_default() } else { ws.join(sep) };
                     values.push(analyze(&index, cfg.tokenizer, &text));
                     doc.add_text(field, &text);
@@ -349,7 +352,7 @@ fn main() {
     tvh::quiet_panics();
     let mut rng = Rng::new(args.seed);
     let thorough = args.thorough();
-    let mut out = CaseOut::new(&args.out, HEADER, 10);
+    let mut out = CaseOut::new(&args.out, HEADER, 24);
 
     // ---------------- (i-a) VInt ----------------
     let mut vals: Vec<u64> = vec![0, 1, 127, 128, 129, 16383, 16384, 16385, u32::MAX as u64 - 1, u32::MAX as u64, u32::MAX as u64 + 1, u64::MAX - 1, u64::MAX];
@@ -382,12 +385,12 @@ fn main() {
     }
 
     // ---------------- (ii) posting-list codec through the public serializer ----------------
-    let lens: Vec<usize> = if thorough { vec![1, 2, 127, 128, 129, 255, 256, 257, 383, 384, 385, 512, 640, 1000] } else { vec![1, 127, 128, 129, 255, 256, 257, 385] };
+    let lens: Vec<usize> = if thorough { vec![1, 2, 127, 128, 129, 255, 256, 257, 383, 384, 385, 512, 640, 1000, 2049, 5000] } else { vec![1, 2, 127, 128, 129, 255, 256, 257, 384, 385, 513] };
     let mut codec_n = 0;
-    for round in 0..(if thorough { 6 } else { 2 }) {
+    for round in 0..(if thorough { 10 } else { 3 }) {
         for &len in &lens {
             for optk in 0..3u64 {
-                let bits = match (round + len + optk as usize) % 8 { 0 => 1, 1 => rng.range(2, 8) as u32, 2 => rng.range(8, 16) as u32, 3 => rng.range(16, 24) as u32, 4 => rng.range(24, 30) as u32, 5 => 30, 6 => 31, _ => 0 };
+                let bits = match codec_n % 8 { 0 => 1, 1 => rng.range(2, 8) as u32, 2 => rng.range(8, 16) as u32, 3 => rng.range(16, 24) as u32, 4 => rng.range(24, 30) as u32, 5 => 30, 6 => 31, _ => 0 };
                 let docs = gen_docs(&mut rng, len, bits);
                 let tf_kind = rng.below(5);
                 let tfs = gen_tfs(&mut rng, len, tf_kind);
@@ -440,7 +443,7 @@ fn main() {
     let kinds = [Kind::Text, Kind::U64, Kind::I64, Kind::F64, Kind::Date, Kind::Bytes, Kind::Ip, Kind::Bool, Kind::Facet, Kind::Json];
     let toks = ["default", "whitespace", "raw"];
     // small segments: specification evaluated in Coq
-    let n_small = if thorough { 240 } else { 70 };
+    let n_small = if thorough { 900 } else { 120 };
     for i in 0..n_small {
         let kind = if i % 3 == 0 { Kind::Text } else { kinds[(i / 3) % kinds.len()] };
         let cfg = FieldCfg { kind, opt: opt_of((i as u64 / 2) % 3), norms: i % 2 == 0, tokenizer: toks[(i / 5) % 3] };
@@ -473,11 +476,11 @@ fn main() {
         }
     }
     // large segments: Rust reference of the specification (bulk), plus seek programs
-    let n_large = if thorough { 40 } else { 9 };
+    let n_large = if thorough { 120 } else { 12 };
     for i in 0..n_large {
         let kind = if i % 3 != 2 { Kind::Text } else { kinds[1 + (i / 3) % (kinds.len() - 1)] };
         let cfg = FieldCfg { kind, opt: opt_of(2 - (i as u64 % 3)), norms: i % 2 == 0, tokenizer: toks[i % 2] };
-        let ndocs = if thorough && i % 8 == 7 { 12_000 } else if i % 4 == 3 { 60 } else { [300usize, 260, 1100, 4100][i % 4] };
+        let ndocs = if thorough && i == 30 { 100_000 } else if thorough && i % 8 == 7 { 12_000 } else if i % 4 == 3 { 60 } else { [300usize, 260, 1100, 4100][i % 4] };
         let shape = if i % 4 == 3 { 3 } else { 2 };
         let vocab = [5u64, 40, 300][i % 3];
         match build_segment(&mut rng, &cfg, ndocs, shape, vocab) {
